@@ -283,3 +283,31 @@ package commands
 //@   option nosafety
 //@   monitor child
 //@     before call (*commands.ExpandQuery).resolveUserset args _, _, st, u, t, ts, c : assert st == deref(store) && u == deref(us) && t == deref(tk) && ts == deref(typesys) && c == deref(consistency)
+
+// ------------------------------------------------------------------ WriteAuthorizationModel (C17)
+// a model is persisted only after it passed validation, under the request's store, with an identifier taken from the
+// process-wide monotonic ULID source (ulid.Make: identifiers increase with every call), and the identifier returned
+// is the identifier stored
+//@ func (*WriteAuthorizationModelCommand).Execute(w, ctx, req) (res, err)
+//@   property C17
+//@   option nosafety
+//@   option stable req
+//@   ensures @idReturned res != nil ==> err == nil && written && writeErr == nil && res.AuthorizationModelId == writtenID
+//@   monitor validateThenPersist
+//@     ghost made = false
+//@     ghost uid string = ""
+//@     ghost idStr string = ""
+//@     ghost idFromMake = false
+//@     ghost validated = false
+//@     ghost validatedModel *openfgav1.AuthorizationModel = nil
+//@     ghost written = false
+//@     ghost writeErr error = nil
+//@     ghost writtenID string = ""
+//@     after call github.com/oklog/ulid/v2.Make returning u : made = true ; uid = u
+//@     after call (github.com/oklog/ulid/v2.ULID).String args u returning s : idStr = s ; idFromMake = made && u == uid
+//@     before call typesystem.NewAndValidate args _, m : assert m != nil && idFromMake
+//@     before call typesystem.NewAndValidate args _, m : assert m.GetId() == idStr
+//@     before call typesystem.NewAndValidate args _, m : assert m.TypeDefinitions == req.GetTypeDefinitions() && m.Conditions == req.GetConditions()
+//@     after call typesystem.NewAndValidate args _, m returning t, e : validated = e == nil ; validatedModel = m
+//@     before call storage.TypeDefinitionWriteBackend.WriteAuthorizationModel args _, _, st, m : assert validated && m == validatedModel && st == req.GetStoreId()
+//@     after call storage.TypeDefinitionWriteBackend.WriteAuthorizationModel args _, _, st, m returning e : written = true ; writeErr = e ; writtenID = m.GetId()
